@@ -118,7 +118,10 @@ def main():
             feats = [rng.choice(['f', 'feat ', 'é', 'x-']) + str(i) for i in range(n)]
             vals = [2 ** 26 + d for d in (0, 1, 2, 3, 5, 6, 7)]
             dens = 1.0
-        it = {'strategy': rng.choice(['median', 'mean', 'sum'] if not big else ['median', 'mean']), 'alpha': rng.choice([0, 0.5, 1, 2] if not big else [0.5, 1]), 'beta': rng.choice([0, 0.5, 1, 2] if not big else [0, 0.5, 1]),
+        int_keys = (not big) and k % 4 == 1
+        if int_keys:
+            feats = [str(i) for i in range(n)]          # integer column ids 0..n-1 (sent as strings, converted by the op)
+        it = {'int_keys': int_keys, 'strategy': rng.choice(['median', 'mean', 'sum'] if not big else ['median', 'mean']), 'alpha': rng.choice([0, 0.5, 1, 2] if not big else [0.5, 1]), 'beta': rng.choice([0, 0.5, 1, 2] if not big else [0, 0.5, 1]),
               'rel': ({f: rng.choice(vals) for f in feats} if not (big and k % 2) else {f: vals[0] for f in feats}),      # equal relevances: the pair scores decide
               'red': [[g, f, rng.choice(vals)] for g in feats for f in feats if rng.random() < dens],
               'rln': [[g, f, rng.choice(vals)] for g in feats for f in feats if rng.random() < dens * 0.7]}
